@@ -631,8 +631,13 @@ class Gen:
             body = b""
         payload = head + body
         if not self.calm and rng.random() < 0.04:  # malformed: truncated somewhere
+            full = payload
             payload = payload[: rng.randrange(0, len(payload) + 1)]
-            meta["truncated"] = True
+            meta["truncated"] = payload != full
+            if meta["truncated"] and payload + b"\x00" * (len(full) - len(payload)) != full:
+                # whatever was cut, the signature bytes the server reads are no longer the ones that were made
+                extra_tok = [("sigok=0" if t.startswith("sigok=") else t) for t in extra_tok]
+                meta["sig_valid"] = False
         if any(t.startswith("key=") for t in extra_tok):
             # key parsing is an external primitive (the key classes): its result for the bytes actually sent
             canon = key_canon(payload)
@@ -665,11 +670,13 @@ class Gen:
         body = S(attached, algo.encode(), keyblob)
         if attached:
             kind = rng.choices(["valid", "other-session", "other-user", "other-service", "other-algo", "other-key",
-                                "wrong-signer", "flipped"], [8, 2, 2, 1, 1, 1, 2, 2])[0]
+                                "wrong-signer", "flipped", "no-session-id"], [8, 2, 2, 1, 1, 1, 2, 2, 1])[0]
             f = {"sid": sid, "user": user, "service": service, "algo": algo.encode(), "key": key.asbytes()}
             signer = key
             if kind == "other-session":
                 f["sid"] = bytes(rng.randrange(256) for _ in range(len(sid)))
+            elif kind == "no-session-id":
+                f["sid"] = b""  # a signature that would be valid in every session if the id were not covered
             elif kind == "other-user":
                 f["user"] = user + b"x"
             elif kind == "other-service":
